@@ -198,3 +198,28 @@ Example C14_temperature_cuts :
   /\ t_mm_read 1 2 (firstn 12 (t_enc c)) 48 = Err            (* the first two records (accepted before 9020b2c) *)
   /\ (exists v, t_mm_read 1 2 (firstn 36 (t_enc c)) 144 = Ok v /\ tv_ntimes v = 2 /\ tv_nz v = 2).
 Proof. vm_compute. repeat split; try reflexivity; eexists; repeat split; reflexivity. Qed.
+
+(* ---- bpch (GEOS-Chem binary punch; model and proofs: Model/Bpch.v, Proofs/BpchPrefixThm.v) -------------------- *)
+Require PNC.Proofs.BpchPrefixThm.
+Module B := PNC.Model.Bpch.
+(* every byte prefix of every bpch-convention file: the bpch1 reader model raises, or presents exactly the first k whole
+   time blocks, or (cut exactly at a tracer boundary inside the FIRST time block) one time block with the first j tracers *)
+Theorem C14_bpch_every_prefix : forall T D f c,
+  B.wf T D f = true -> B.tables_ok T D = true -> 0 <= c <= 4 * B.lenZ (B.enc f) ->
+  let r := B.impl_open T D (firstn (Z.to_nat (c / 4)) (B.enc f)) c in
+  r = B.Err
+  \/ (exists k, (1 <= k <= length (B.f_times f))%nat /\ 136 + 4 * (Z.of_nat k * B.tb_wordsZ (B.tb0 f)) <= c
+                /\ r = B.Ok (B.view_of T D (B.trunc_times k f)))
+  \/ (exists j, (1 <= j < length (B.tb0 f))%nat /\ c = 136 + 4 * B.tb_wordsZ (firstn j (B.tb0 f))
+                /\ r = B.Ok (B.view_of T D (B.first_tracers j f))).
+Proof. exact PNC.Proofs.BpchPrefixThm.prefix_open. Qed.
+Print Assumptions C14_bpch_every_prefix.
+
+(* "raises or exactly k whole steps" is false for bpch: a cut at a tracer boundary inside the first time block opens
+   with fewer tracers (a bpch file has no tracer count) - finding C14-bpch-first-block-tracer-cut *)
+Theorem C14_bpch_first_block_tracer_cut_refuted : exists T D f c,
+  B.wf T D f = true /\ B.tables_ok T D = true /\ 0 <= c < 4 * B.lenZ (B.enc f)
+  /\ exists v, B.impl_open T D (firstn (Z.to_nat (c / 4)) (B.enc f)) c = B.Ok v
+               /\ (length (B.r_vars v) < length (B.tb0 f))%nat /\ length (B.r_data v) = 1%nat.
+Proof. exact PNC.Proofs.BpchPrefixThm.prefix_tracer_cut_witness. Qed.
+Print Assumptions C14_bpch_first_block_tracer_cut_refuted.
